@@ -148,6 +148,10 @@ class WebSocketWriter:
 
         if self.transport.is_closing():
             raise ClientConnectionResetError("Cannot write to closing transport")
+        if self._closing and not (opcode & WSMsgType.CLOSE):
+            # A compressed frame that was waiting for the send lock or the
+            # executor when the Close frame went out must not follow it.
+            raise ClientConnectionResetError("Cannot write to closing transport")
 
         # https://datatracker.ietf.org/doc/html/rfc6455#section-5.3
         # If we are using a mask, we need to generate it randomly
